@@ -83,12 +83,15 @@ def finish(prop, tier, seed, t0, outcome):
     new, old = classify(prop, [v for v, _ in outcome.viols])
     payload_of = {json.dumps(v, sort_keys=True, default=str): p for v, p in outcome.viols}
     seen_known = set()
+    known_examples = {}
     for k, v in old:
         if k["id"] not in seen_known:
             seen_known.add(k["id"])
+            known_examples[k["id"]] = json.loads(json.dumps({x: v[x] for x in v if x != "file"}, default=str)[:1200] if len(json.dumps(v, default=str)) <= 1200 else json.dumps({"code": v.get("code"), "name": v.get("name"), "detail": str(v.get("detail"))[:900]}))
             print(f"KNOWN-FINDING: property={prop} {k['id']}: {k['what']}")
     cov = dict(outcome.coverage)
     cov["known_findings_seen"] = sorted(seen_known)
+    cov["known_findings_first_occurrence"] = known_examples
     cov["new_violations"] = len(new)
     rc = 0
     reported = set()
